@@ -73,6 +73,13 @@ def gen_step(seed, tier, names):
                   "at": r.random(), "v": r.randrange(256)})
     else:
       ops.append({"k": k, "dt": r.pick([0.3, 1.1, 5.0, 11.0])})
+  # further PacketIn listeners that ship with pox and read header fields of
+  # whatever arrives (own stream: the draws above stay what they were)
+  ra = Rng(mix(seed, "insitu-apps"))
+  cfg["apps"] = [a for a in ("l3_learning", "dns_spy", "host_tracker")
+                 if ra.chance(0.3)]
+  if not cfg["discovery"] and "host_tracker" in cfg["apps"]:
+    cfg["apps"].remove("host_tracker")   # (it asks discovery about ports)
   return {"mode": "insitu", "seed": mix(seed, "insitu-run"), "cfg": cfg,
           "ops": ops, "range": [0, len(ops)]}
 
@@ -205,6 +212,22 @@ def run(step, calm=False):
     D.random = lambda: sim.ch.uniform("disc_random", 0.0, 1.0, 0.0)
     D.launch(link_timeout=10)
     sim.probes["app_discovery"] += 1
+  for app in cfg.get("apps") or ():
+    if app == "l3_learning":
+      import pox.forwarding.l3_learning as L3
+      L3.launch()
+    elif app == "dns_spy":
+      import pox.proto.dns_spy as DS
+      if not net.core.hasComponent("Interactive"):
+        # (the interactive shell's variable table, where dns_spy publishes
+        # its lookup function: a plain holder here)
+        net.core.register("Interactive", type("Interactive", (object,),
+                                              {"variables": {}})())
+      DS.launch()
+    elif app == "host_tracker":
+      import pox.host_tracker as HT
+      HT.launch()
+    sim.probes["app_" + app] += 1
   sim.probes["msl_%d" % cfg["msl"]] += 1
 
   # what any handler may do with the parse result
